@@ -532,6 +532,21 @@ def r5_package_restricts(ctx, rep, R='C14.R5'):
               key='package:loops', func=fi.qualname, where=ctx.where(fi, fi.node))
 
 
+def _key_is_length(ctx, fi, key):
+    """the sort key is the length of (the path component of) the element: a lambda, or a named
+    module-level function whose only statement returns such an expression"""
+    body = None
+    if isinstance(key, ast.Lambda):
+        body = key.body
+    elif isinstance(key, ast.Name):
+        f = fi.module.functions.get(key.id) if hasattr(fi.module, 'functions') else None
+        if f is not None:
+            sts = [x for x in f.node.body if not (isinstance(x, ast.Expr) and isinstance(x.value, ast.Constant))]
+            if len(sts) == 1 and isinstance(sts[0], ast.Return) and sts[0].value is not None:
+                body = sts[0].value
+    return body is not None and isinstance(body, ast.Call) and dotted(body.func) == 'len'
+
+
 def r6_longest_prefix_first(ctx, rep, R='C14.R6'):
     rep.rule(R, 'longest prefix first: options.prefix is sorted by descending length of the path '
              'before use (find_suites takes the first matching prefix)')
@@ -547,14 +562,14 @@ def r6_longest_prefix_first(ctx, rep, R='C14.R6'):
             if isinstance(c.func, ast.Attribute) and c.func.attr == 'sort' and \
                     dotted(c.func.value) == 'options.prefix':
                 key, rev = kw(c, 'key'), kw(c, 'reverse')
-                if isinstance(key, ast.Lambda) and 'len(' in norm(key.body) and \
+                if _key_is_length(ctx, fi, key) and \
                         isinstance(rev, ast.Constant) and rev.value is True:
                     sorts.append(n.id)
         if isinstance(n.ast, ast.Assign) and any(dotted(t) == 'options.prefix' for t in n.ast.targets) \
                 and isinstance(n.ast.value, ast.Call) and dotted(n.ast.value.func) == 'sorted':
             c = n.ast.value
             key, rev = kw(c, 'key'), kw(c, 'reverse')
-            if isinstance(key, ast.Lambda) and 'len(' in norm(key.body) and \
+            if _key_is_length(ctx, fi, key) and \
                     isinstance(rev, ast.Constant) and rev.value is True:
                 sorts.append(n.id)
     ok = bool(stores) and bool(sorts)
